@@ -94,6 +94,7 @@ func vServerSession(tok, payload []byte, key [4]byte) []byte {
 	// (a 125-byte ping: its pong is built in a pooled buffer — smaller ones are not pooled)
 	big := append(bytes.Repeat([]byte{'x'}, 124), payload[0])
 	wire := vMaskedFrame(9, true, key, big)
+	wire = append(wire, vMaskedFrame(10, true, key, payload)...) // an unsolicited pong with a payload
 	wire = append(wire, vMaskedFrame(1, false, key, payload[:1])...)
 	wire = append(wire, vMaskedFrame(0, true, key, payload[1:])...)
 	conn := &vHalf{in: wire}
